@@ -211,6 +211,8 @@ class Specs:
     def instance(self, app):
         """ground definitional equation for one application term of a spec UF"""
         fn = self.by_decl[app.decl().name()]
+        if fn.sum is None and fn.body is None:
+            return z3.BoolVal(True)          # opaque (uninterpreted) spec function: no definition
         args = [app.arg(i) for i in range(app.num_args())]
         env = self.unflatten(fn, args)
         tr = Tr(self, env, mode="spec")
